@@ -26,18 +26,41 @@
 (***************************************************************************)
 EXTENDS ResultViews, Json
 
-CONSTANTS Memo, MaxEvents, MaxReads, EmitOn
+CONSTANTS Memo, MaxEvents, MaxReads, EmitOn,
+          Scenario,    \* "lin": all parameters are numbers | "linia": p is defined by an assignment (x(0) + q), q is
+                       \* updated between segments 1 and 2 (p follows), p is overridden by a number before segment 3,
+                       \* and the model's declared x(0) may be EDITED after the simulation (event "edit")
+          Snapshot     \* "resolved": a segment records the resolved values of all parameters | "numbers": only the
+                       \* number-valued ones, assignment-defined ones are re-resolved from the LIVE declaration at
+                       \* the time of the read (the pinned commit: must be refuted by TLC)
 
-VARIABLES k, handed, smemo, hist, lastans, nreads, atab
-vars == <<k, handed, smemo, hist, lastans, nreads, atab>>
+VARIABLES k, handed, smemo, hist, lastans, nreads, atab, decl
+vars == <<k, handed, smemo, hist, lastans, nreads, atab, decl>>
+\* decl : the model's declaration as it stands now (content: parameters updated / overridden, x(0) edited)
 \* atab[n][j] = View(SOps[j], ResN(n)): the specified answers, computed once (TLC does not memoise operators)
 \* k      : segments simulated so far
 \* handed : Seq([n |-> segments present at hand-out, memo |-> segments covered by this result's own memo, 0 = empty])
 \* smemo  : segments covered by the simulator-wide memo (only used when Memo = "shared")
 
-AllSegs == SimSegs(Content("lin"), SimScenario.steps, SimScenario.y0, 0)
-MaxSeg  == Len(SimScenario.steps)
-ResN(n) == MkRes("lin", SubSeq(AllSegs, 1, n))
+Scn     == IF Scenario = "lin"
+           THEN [y0 |-> SimScenario.y0,
+                 steps |-> [i \in DOMAIN SimScenario.steps |-> [set |-> SimScenario.steps[i].pars,
+                                                                times |-> SimScenario.steps[i].times]]]
+           ELSE IaScenario
+C0      == Content(Scenario)
+Steps   == ResolveSteps(C0, Scn.steps)            \* per step: the parameter values in force, and the times
+AllSegs == SimSegs(C0, Steps, Scn.y0, 0)
+MaxSeg  == Len(Scn.steps)
+ResN(n) == MkRes(Scenario, SubSeq(AllSegs, 1, n))
+EditX0  == 9                                      \* update_variable("x", 9) on the model after the simulation
+
+\* was p number-valued while segment i was simulated?
+WasNumber(i) == Scenario = "lin" \/ \E j \in 1..i : "p" \in DOMAIN Scn.steps[j].set
+\* what a result that recorded only number-valued parameters reports: the other ones as the live declaration has them
+ResLive(n) ==
+    LET live == InForce(decl)
+    IN MkRes(Scenario, [i \in 1..n |-> [AllSegs[i] EXCEPT !.pars = [m \in DOMAIN @ |->
+                                            IF m = "p" /\ ~WasNumber(i) THEN live[m] ELSE @[m]]]])
 
 SOp(view, flags, concat) ==
     [view |-> view, flags |-> flags, v |-> "x", scaled |-> FALSE, concat |-> concat, norm |-> "none", val |-> 0]
@@ -57,23 +80,34 @@ Answer(h, op, memoN) ==
     LET sees == IF Memo = "sharedlists" THEN k ELSE handed[h].n
     IN IF ~CacheBacked(SOps[op]) THEN atab[sees][op]
        ELSE IF SOps[op].view = "rhs" /\ memoN # sees THEN Err
+       ELSE IF Snapshot = "numbers" THEN View(SOps[op], ResLive(memoN))
        ELSE atab[memoN][op]
 
-Init == /\ k = 0 /\ handed = <<>> /\ smemo = 0 /\ hist = <<>> /\ lastans = <<>> /\ nreads = 0
+Init == /\ decl = C0
+        /\ k = 0 /\ handed = <<>> /\ smemo = 0 /\ hist = <<>> /\ lastans = <<>> /\ nreads = 0
         /\ atab = [n \in 1..MaxSeg |-> [j \in DOMAIN SOps |-> View(SOps[j], ResN(n))]]
 
 Continue ==
     /\ k < MaxSeg
     /\ k' = k + 1
+    /\ decl' = ApplySet(decl, Scn.steps[k + 1].set)
     /\ hist' = Append(hist, [e |-> "continue", h |-> 0, op |-> 0])
     /\ UNCHANGED <<handed, smemo, lastans, nreads, atab>>
+
+\* the model is edited after the simulation: the declared initial value of x changes (an assignment-defined
+\* parameter of the LIVE model now resolves differently; no result may notice)
+Edit ==
+    /\ Scenario = "linia" /\ k = MaxSeg /\ decl.init["x"].v # EditX0
+    /\ decl' = [decl EXCEPT !.init["x"] = M!Num(EditX0)]
+    /\ hist' = Append(hist, [e |-> "edit", h |-> 0, op |-> 0])
+    /\ UNCHANGED <<k, handed, smemo, lastans, nreads, atab>>
 
 GetResult ==
     /\ k >= 1 /\ Len(handed) < 2
     /\ (IF handed = <<>> THEN TRUE ELSE handed[Len(handed)].n < k)   \* the same value twice adds nothing
     /\ handed' = Append(handed, [n |-> k, memo |-> 0])
     /\ hist' = Append(hist, [e |-> "get", h |-> Len(handed) + 1, op |-> 0])
-    /\ UNCHANGED <<k, smemo, lastans, nreads, atab>>
+    /\ UNCHANGED <<k, smemo, lastans, nreads, atab, decl>>
 
 Read(h, j) ==
     LET op   == SOps[j]
@@ -89,10 +123,10 @@ Read(h, j) ==
           ELSE UNCHANGED <<handed, smemo>>
        /\ hist' = Append(hist, [e |-> "read", h |-> h, op |-> j])
        /\ nreads' = nreads + 1
-       /\ UNCHANGED <<k, atab>>
+       /\ UNCHANGED <<k, atab, decl>>
 
 Next == /\ Len(hist) < MaxEvents
-        /\ \/ Continue \/ GetResult
+        /\ \/ Continue \/ GetResult \/ Edit
            \/ \E h \in DOMAIN handed, j \in DOMAIN SOps : Read(h, j)
 
 (***************************************************************************)
@@ -106,6 +140,14 @@ HandedOutIsValue ==
 LaterCoversAll ==
     (hist # <<>> /\ hist[Len(hist)].e = "get") => handed[Len(handed)].n = k
 \* the theorems of ResultViews hold of every prefix result (in particular concatenated = stacked, N.v = rhs)
+\* the values in force: an assignment-defined parameter follows the parameters it is computed from until it is
+\* overridden by a number (IaScenario: p = 2 + 11, then 2 + 3, then the number 7)
+InForceIsResolved ==
+    (hist = <<>> /\ Scenario = "linia") =>
+        /\ Steps[1].pars = ("p" :> 13) @@ ("q" :> 11) /\ Steps[2].pars = ("p" :> 5) @@ ("q" :> 3)
+        /\ Steps[3].pars = ("p" :> 7) @@ ("q" :> 3)
+        /\ \A i \in 1..MaxSeg : AllSegs[i].pars = Steps[i].pars
+
 PrefixTheorems ==
     hist = <<>> => \A n \in 1..MaxSeg :
         LET r == ResN(n) tb == SpecTables(r)
@@ -114,7 +156,7 @@ PrefixTheorems ==
 Maximal == Len(hist) = MaxEvents \/ (nreads = MaxReads /\ k = MaxSeg /\ Len(handed) = 2)
 EmitTable ==
     (EmitOn /\ hist = <<>>) =>
-        PrintT("@J@" \o ToJson([kind |-> "table", content |-> Content("lin"), sim |-> SimScenario, ops |-> SOps,
+        PrintT("@J@" \o ToJson([kind |-> "table", content |-> C0, sim |-> Scn, editx0 |-> EditX0, ops |-> SOps,
                                  res |-> [n \in 1..MaxSeg |-> ResN(n)],
                                  answers |-> atab]) \o "@E@")
 EmitSeq ==
